@@ -24,18 +24,18 @@ Check C05_bare_variant_never_consumes_sibling : forall f c name variants v tag r
 Print Assumptions C05_bare_variant_never_consumes_sibling.
 
 Theorem C05_option_null : forall f c t v tag raw st a l prev rest ref,
-  (tag =? TAG_Null) || (negb (tag =? TAG_String) && scalar_is_nullish_for_option v st) = true ->
+  (tag =? TAG_Null) || (negb (tag =? TAG_String) && negb (tag =? TAG_Binary) && scalar_is_nullish_for_option v st) = true ->
   deser (S f) c false (TOption t) (SReplay prev (EScalar v tag raw st a l :: rest) ref) =
   DOk VNone (SReplay (Some (EScalar v tag raw st a l)) rest ref).
 Proof. exact option_null_table. Qed.
 Check C05_option_null : forall f c t v tag raw st a l prev rest ref,
-  (tag =? TAG_Null) || (negb (tag =? TAG_String) && scalar_is_nullish_for_option v st) = true ->
+  (tag =? TAG_Null) || (negb (tag =? TAG_String) && negb (tag =? TAG_Binary) && scalar_is_nullish_for_option v st) = true ->
   deser (S f) c false (TOption t) (SReplay prev (EScalar v tag raw st a l :: rest) ref) =
   DOk VNone (SReplay (Some (EScalar v tag raw st a l)) rest ref).
 Print Assumptions C05_option_null.
 
 Theorem C05_option_some : forall f c t v tag raw st a l prev rest ref,
-  (tag =? TAG_Null) || (negb (tag =? TAG_String) && scalar_is_nullish_for_option v st) = false ->
+  (tag =? TAG_Null) || (negb (tag =? TAG_String) && negb (tag =? TAG_Binary) && scalar_is_nullish_for_option v st) = false ->
   deser (S f) c false (TOption t) (SReplay prev (EScalar v tag raw st a l :: rest) ref) =
   match deser f c false t (SReplay prev (EScalar v tag raw st a l :: rest) ref) with
   | DOk x s => DOk (VSome x) s
@@ -43,7 +43,7 @@ Theorem C05_option_some : forall f c t v tag raw st a l prev rest ref,
   end.
 Proof. exact option_some_table. Qed.
 Check C05_option_some : forall f c t v tag raw st a l prev rest ref,
-  (tag =? TAG_Null) || (negb (tag =? TAG_String) && scalar_is_nullish_for_option v st) = false ->
+  (tag =? TAG_Null) || (negb (tag =? TAG_String) && negb (tag =? TAG_Binary) && scalar_is_nullish_for_option v st) = false ->
   deser (S f) c false (TOption t) (SReplay prev (EScalar v tag raw st a l :: rest) ref) =
   match deser f c false t (SReplay prev (EScalar v tag raw st a l :: rest) ref) with
   | DOk x s => DOk (VSome x) s
